@@ -461,8 +461,14 @@ where
             CacheError::SendError(format!("fail to send clear signal to working thread {}", e))
         })?;
 
+        #[cfg(transparencies_stretto_verif)]
+        crate::verif::sched::point("clear:after_signal");
         self.policy.clear();
+        #[cfg(transparencies_stretto_verif)]
+        crate::verif::sched::point("clear:after_policy_clear");
         self.store.clear();
+        #[cfg(transparencies_stretto_verif)]
+        crate::verif::sched::point("clear:after_store_clear");
         self.metrics.clear();
 
         Ok(())
@@ -521,6 +527,8 @@ where
             return Ok(());
         }
 
+        #[cfg(transparencies_stretto_verif)]
+        crate::verif::sched::point("wait:before_send");
         let wg = WaitGroup::new();
         let wait_item = Item::Wait(wg.add(1));
         self.insert_buf_tx
@@ -544,6 +552,8 @@ where
         // delete immediately
         let prev = self.store.try_remove(&index, conflict)?;
 
+        #[cfg(transparencies_stretto_verif)]
+        crate::verif::sched::point("remove:after_store_remove");
         if let Some(prev) = prev {
             self.callback.on_exit(Some(prev.value.into_inner()));
         }
@@ -571,10 +581,14 @@ where
         }
 
         self.clear()?;
+        #[cfg(transparencies_stretto_verif)]
+        crate::verif::sched::point("close:after_clear");
         // Block until processItems thread is returned
         self.stop_tx
             .send(())
             .map_err(|e| CacheError::SendError(format!("{}", e)))?;
+        #[cfg(transparencies_stretto_verif)]
+        crate::verif::sched::point("close:after_stop");
         self.policy.close()?;
         self.is_closed.store(true, Ordering::SeqCst);
         Ok(())
@@ -596,6 +610,8 @@ where
         self.try_update(key, val, cost, ttl, only_update)?
             .map_or(Ok(false), |(index, item)| {
                 let is_update = item.is_update();
+                #[cfg(transparencies_stretto_verif)]
+                crate::verif::sched::point("insert:before_send");
                 // Attempt to send item to policy.
                 select! {
                     send(self.insert_buf_tx, item) -> res => {
@@ -674,6 +690,8 @@ where
         spawn(move || loop {
             select! {
                 recv(self.insert_buf_rx) -> res => {
+                    #[cfg(transparencies_stretto_verif)]
+                    crate::verif::sched::point("proc:insert_arm");
                     if let Err(e) = self.handle_insert_event(res) {
                         tracing::error!("fail to handle insert event: {}", e);
                         #[cfg(transparencies_stretto_verif)]
@@ -683,6 +701,8 @@ where
                     crate::verif::counters::inc(&crate::verif::counters::ITEMS_HANDLED);
                 },
                 recv(self.clear_rx) -> _ => {
+                    #[cfg(transparencies_stretto_verif)]
+                    crate::verif::sched::point("proc:clear_arm");
                     if let Err(e) = self.handle_clear_event() {
                         tracing::error!("fail to handle clear event: {}", e);
                         #[cfg(transparencies_stretto_verif)]
@@ -692,6 +712,8 @@ where
                     crate::verif::counters::inc(&crate::verif::counters::CLEARS_DONE);
                 },
                 recv(ticker) -> msg => {
+                    #[cfg(transparencies_stretto_verif)]
+                    crate::verif::sched::point("proc:tick_arm");
                     #[cfg(transparencies_stretto_verif)]
                     crate::verif::counters::inc(&crate::verif::counters::TICKS_STARTED);
                     if let Err(e) = self.handle_cleanup_event(msg) {
